@@ -19,7 +19,7 @@ func init() {
 			"(R2) bulk moves follow the move protocol (C01/R4), no table pointer is used after the table slice may have grown without being re-derived (C01/R5), and the (table, start, count) handed to the batch callback are the destination table, the destination's length read before the move (or the start returned by it) and the moved count; records written back into a batch list are written through a pointer or index, never into a range-value copy (R8: no field assignment and no storing pointer-receiver method call on a range-value copy whose result is dropped, anywhere in the package); " +
 			"(R3) row coherence: wherever a callback receives T.GetEntity(i) together with component pointers col.Get(j), i and j are the same expression and every col is a column of table T; " +
 			"(R4) deferred cleanup: in the batch entity removal no call that can free or move tables lies inside the loop over the selected tables; (R5) callbacks run under the internal lock (C07/R2); " +
-			"(R6) scratch exclusivity: while a function holds a scratch slice of the storage (taken into a local, not yet handed back) it calls no function that itself takes that scratch slice; (R9) what is put back into a scratch slot (`slot = list[:0]`) is on every path the slot's own buffer or freshly allocated memory, never a list that belongs to another owner (a cache entry's table list, a table's relation list), followed through re-slices, appends, locals, helper results and parameters. " +
+			"(R6) scratch exclusivity: while a function holds a scratch slice of the storage (taken into a local, not yet handed back) it calls no function that itself takes that scratch slice; (R9) what is put back into a scratch slot (`slot = list[:0]`) is on every path the slot's own buffer or freshly allocated memory, never a list that belongs to another owner (a cache entry's table list, a table's relation list), followed through re-slices, appends, locals, helper results and parameters; (R10) a batch plan describes each table by itself: no field of a per-table plan record built in the planning loop, and nothing used by a later loop over the records, is a variable that is declared outside the planning loop and overwritten inside it (a memoised destination, one accumulator for all tables) - flags, counters and the record list excepted. " +
 			"Not decided: equivalence of the resulting world with sequential execution; exactly-once across several source tables mapping to one destination.",
 		TrustedBase: []string{"go/types, go/cfg", "rules C01/R4 and C07/R2"},
 		Rules: []Rule{
@@ -32,6 +32,7 @@ func init() {
 			{ID: "C01/R9", Run: c01r9, Min: 1},
 			{ID: "C06/R8", Run: c06r8, Min: 1},
 			{ID: "C06/R9", Run: c06r9, Min: 1},
+			{ID: "C06/R10", Run: c06r10, Min: 8},
 		},
 	})
 }
